@@ -65,11 +65,17 @@ def run(ctx):
         lock = b.calls(r"::key_value_entry_lock$")
         ctx.floor("burn_internal|remove-sites", len(rem), 1)
         oks = set(b.ok_exits())
+        # the source's own TODO: RUID ids are generated, never chosen, so a burnt RUID id cannot be minted again even without a tombstone;
+        # a path that is established to handle a RUID id (match on the id / id type) may therefore skip the lock
+        ruid_edges = []
+        for gb, ged, gow, gsi in b.enum_guards(r"::(NonFungibleLocalId|NonFungibleIdType)$"):
+            if "RUID" in ged:
+                ruid_edges.append((gb, ged["RUID"]))
         for bb, t in rem:
-            r = b.reach(tuple(b.succs(bb)), blocked_blocks=[x for x, _ in lock])
+            r = b.reach(tuple(b.succs(bb)), blocked_blocks=[x for x, _ in lock], blocked_edges=ruid_edges)
             same = any(origin_names(b, lt["args"][1]) == origin_names(b, t["args"][1]) for _, lt in lock)
             ctx.ob("burn_internal|tombstone-after-remove", bool(lock) and not (r & oks) and same,
-                   "after key_value_entry_remove no Ok exit is reachable without key_value_entry_lock on the same handle", b.loc(bb))
+                   "after key_value_entry_remove no Ok exit is reachable without key_value_entry_lock on the same handle (except on a RUID-id arm)", b.loc(bb))
         check_guarded(ctx, "burn_internal|burnable", b, [x for x, _ in rem], [G_try(re.escape(BP) + r"::assert_burnable$")], "entry removal")
 
     ctx.rule("T2 in update_non_fungible_data: the entry write is behind the mutable-field-name lookup succeeding, and the overwritten "
